@@ -673,6 +673,17 @@ class TotalGen:
                 body.append(("decl", "const", [("keep", None, ("ident", "acc"))]))
             body += [("expr", ("assign", ("ident", "acc"), upd)), ("return", ("ident", "acc"))]
             return ("binding_block", body), t
+        if self.rng.random() < 0.08 and t in ("int", "string", "bool"):
+            # two objects chosen at run time, one read inside an `if` WITHOUT else, the other after it: both reads are live in one evaluation (the block after the
+            # if is not an alternative to its body), so both objects stay observed
+            def sel():
+                return ("ternary", ("member", ("ident", self.pick(["a", "b", "sub"])), "b"), ("ident", self.pick(["a", "b"])), ("ident", self.pick(["a", "b"])))
+            d0 = {"int": ("int", 0), "string": ("str", ""), "bool": ("bool", False)}[t]
+            op = {"int": "^", "string": "+", "bool": "||"}[t]
+            body = [("decl", "let", [("p", None, sel())]), ("decl", "let", [("w", None, sel())]), ("decl", "let", [("s", None, d0)]),
+                    ("if", ("member", ("ident", self.pick(["a", "b", "sub"])), "b"), ("block", [("expr", ("assign", ("ident", "s"), ("member", ("ident", "p"), PROP[t])))]), None),
+                    ("return", ("binary", op, ("ident", "s"), ("member", ("ident", "w"), PROP[t])))]
+            return ("binding_block", body), t
         if r < 0.15 and t in ("int", "uint", "string", "bool"):
             # a pointer local re-pointed between two reads of the same property (both objects chosen dynamically, never null)
             def sel():
